@@ -1046,15 +1046,17 @@ Example pipeline_tr :
   agree "tr" "50 + 10%" ["50+10%"; "  50  +  10%  # 5"].
 Proof. conjs; agree_tac. Qed.
 
-(* known findings C16-K1 / C16-K2: a sign written directly in front of a digit is read into the literal *)
+(* known finding C16-K2: a sign written directly in front of a digit is read into the literal and the two operands are
+   adjacent tokens; the date - duration consequence (was C16-K1) is repaired in /repo acb6397: positive examples below *)
 Example sign_in_literal_refuted :
-  values "en" "12 jul 1997-1 year" <> values "en" "12 jul 1997 - 1 year" /\
-  evaluates "en" "12 jul 1997-1 year" = true /\ evaluates "en" "12 jul 1997 - 1 year" = true /\
   values "en" "1600000000+60 to date" <> values "en" "1600000000 + 60 to date" /\
   evaluates "en" "1600000000+60 to date" = true /\
   values "en" "5+3 km" <> values "en" "5 + 3 km" /\ evaluates "en" "5+3 km" = true /\
   (* ... while for the other operand kinds a + (-b) = a - b *)
   agree "en" "12 jul 1997-5 days" ["12 jul 1997 - 5 days"] /\ agree "en" "10 usd-5 usd" ["10 usd - 5 usd"] /\
+  agree "en" "12 jul 1997-1 year" ["12 jul 1997 - 1 year"; "12 jul 1997 + -1 year"] /\
+  agree "en" "12 jul 1997-1 month" ["12 jul 1997 - 1 month"] /\ agree "en" "5 jan 2020-1 month" ["5 jan 2020 - 1 month"] /\
+  agree "en" "3/4/1991-19 weeks" ["3 / 4 / 1991 - 19 weeks"] /\
   agree "en" "12:30-2 hours" ["12:30 - 2 hours"] /\ agree "en" "8-2*3" ["8 - 2 * 3"].
 Proof. cbn [agree]; conjs; vm_compute; try reflexivity; discriminate. Qed.
 
